@@ -83,7 +83,7 @@ class Gen:
         n = r.choice([1, 2, 3, 3, 4, 4, 5, 6, 7, 9, 12, 13, 16, 18, 19, 19])
         with_self = r.random() < 0.9
         A = self.mkset(r.randrange(0, 5), n, with_self)
-        bodies = {"d1": {"id": "i1", "chain": r.choice([2, 4, 255, 10001])},
+        bodies = {"d1": {"id": "i1", "chain": r.choice([1, 2, 4, 255, 10001])},
                   "d2": {"id": r.choice(["i1", "i2"]), "chain": 2}}
         bodies["d2"]["chain"] = bodies["d1"]["chain"] if bodies["d2"]["id"] == "i1" else 2
         if r.random() < 0.3:
@@ -267,7 +267,10 @@ class Gen:
         n = r.choice([1, 3, 4, 7])
         A = self.mkset(0, n, True)
         bodies = {"dg": {"id": "ig", "chain": 1, "gov": True}, "dh": {"id": "ig", "chain": 1, "gov": True, "ts": 1600000005},
-                  "d1": {"id": "i1", "chain": 2}}
+                  "d1": {"id": "i1", "chain": 2},
+                  # look-alikes that are NOT the governance emitter: another emitter on the governance chain, and the
+                  # governance emitter's address on another chain - both must be signed like any other message
+                  "dc": {"id": "ic", "chain": 1}, "da": {"id": "ia", "chain": 2, "govaddr": True}}
         members = [k for k in A["keys"] if k != "g1"]
         need = q(n)
         steps = [{"ev": "SetUpdate", "a": {"set": A}}]
@@ -286,8 +289,10 @@ class Gen:
             steps += [self.obs(d, k) for k in r.sample(members, min(len(members), need))]
         if r.random() < 0.5:
             steps += [inj, {"ev": "Loopback?", "a": {"d": "dg"}}]
-        steps.append(self.msg("d1", bodies))
-        steps.append({"ev": "Loopback?", "a": {"d": "d1"}})
+        for d in r.sample(["d1", "dc", "da"], r.choice([1, 2, 3])):
+            steps.append(self.msg(d, bodies))
+            steps.append({"ev": "Loopback?", "a": {"d": d}})
+            steps += [self.obs(d, k) for k in r.sample(members, min(len(members), need))]
         return {"bodies": bodies, "steps": steps, "src": "gen-gov"}
 
     def cleanup(self):
